@@ -86,3 +86,11 @@ Theorem C04_paveba_partial_gp_ellipsoids_up_to_four_objectives : forall C2 K m d
                                paveba_partial_gp_alpha nv delta (INR K) (INR m) (INR t) 1)) N <= delta.
 Proof. exact SchedulesE.partial_gp_ell_union_bound_m4. Qed.
 Print Assumptions C04_paveba_partial_gp_ellipsoids_up_to_four_objectives.
+
+(* ... and for the whole quantified range of objective counts (m <= 6) as soon as there are three designs *)
+Theorem C04_paveba_partial_gp_ellipsoids_up_to_six_objectives_three_designs : forall C2 K m delta nv N, SchedulesC.chi2_lm_ok C2 ->
+  (3 <= K)%nat -> (1 <= m <= 6)%nat -> 0 < delta < 1 ->
+  sumR (fun t => INR K * C2 m (paveba_partial_gp_alpha nv delta (INR K) (INR m) (INR t) 1 *
+                               paveba_partial_gp_alpha nv delta (INR K) (INR m) (INR t) 1)) N <= delta.
+Proof. exact SchedulesE.partial_gp_ell_union_bound_m6. Qed.
+Print Assumptions C04_paveba_partial_gp_ellipsoids_up_to_six_objectives_three_designs.
